@@ -516,7 +516,11 @@ func c16Body(c *fw.Ctx) {
 			f("", strings.Join(parts, ""))
 			f("http://u:p@b.test:81/d/f?bq#bf", strings.Join(parts, ""))
 		})
-		for _, q := range []string{"?b=2&a=1&a=0&c", "?a=%26b&c=%3D", "?a+b=c+d&a%20b=1", "?=&=&&x", "?é=1&e=2&É=3", "?a=2&a=1&b=1&a=3#f", "?%zz=1&%=2"} {
+		long := "?"
+		for i := 0; i < 15; i++ {
+			long += []string{"b", "a", "c", "a"}[i%4] + "=" + fmt.Sprint(i) + "&"
+		}
+		for _, q := range []string{long, long + long[1:] + "a=x#f", "?b=2&a=1&a=0&c", "?a=%26b&c=%3D", "?a+b=c+d&a%20b=1", "?=&=&&x", "?é=1&e=2&É=3", "?a=2&a=1&b=1&a=3#f", "?%zz=1&%=2"} {
 			for _, pre := range []string{"http://u:p@h:81/p", "foo:o p", "file:///C:/x", "h.test/p", "//h/p"} {
 				f("", pre+q)
 			}
